@@ -48,6 +48,8 @@ def gen_program(rng, i):
     prefix = "d"
     for lvl in range(depth):
         name = "role%d" % lvl if rng.random() < 0.7 else rng.choice(["r l%d" % lvl, "Ünï%d" % lvl])
+        if lvl == depth - 1 and rng.random() < 0.12:
+            name = rng.choice(["root", "snapshot", "timestamp", "targets"])   # names of the top-level roles
         nkeys = rng.randint(1, 3)
         keys = rng.sample([4, 5, 6, 7, 8, 10, 12], nkeys)
         thr = rng.randint(1, 3)
@@ -145,6 +147,11 @@ def check_meta_exact(chk, files, cs, full):
         want = {"version": doc["signed"]["version"], "length": len(raw), "hashes": {"sha256": hashlib.sha256(raw).hexdigest()}}
         if meta != want:
             chk.violation("%s entry %s does not describe the written file %s exactly (%s)" % (what, json.dumps(meta), fname, json.dumps(want)), full)
+    if ts["signed"].get("_type") != "timestamp" or parsed[snap_name]["signed"].get("_type") != "snapshot":
+        chk.violation("the file written as %s is a %s document, the one written as %s a %s document: the metadata of "
+                      "another role was written over it" % ("timestamp.json", ts["signed"].get("_type"), snap_name,
+                                                            parsed[snap_name]["signed"].get("_type")), full)
+        return
     describes(ts["signed"]["meta"]["snapshot.json"], snap_name, "timestamp")
     snap = parsed[snap_name]
     for entry, meta in snap["signed"]["meta"].items():
@@ -180,6 +187,23 @@ def run(chk):
     cases, infos = [], []
     for i in range(n):
         s = scen.Scen()
+        if i < 8:
+            # corpus: a delegated role bearing the name of a top-level role, both settings
+            nm, cs0 = ["root", "snapshot", "timestamp", "targets"][i % 4], i >= 4
+            it = Intent()
+            it.roles[nm] = {"targets": {}, "parent": "targets", "keys": [4], "threshold": 1, "paths": "d/*", "version": 1}
+            it.versions = (7, 8, 9)
+            prog = [{"op": "new"}, {"op": "add_target", "name": "top.txt", "content": "top"},
+                    {"op": "delegate_role", "name": nm, "keys": [4], "paths": ["d/*"], "threshold": 1,
+                     "expires": 86400 * 40, "version": 1},
+                    {"op": "versions", "targets": 7, "snapshot": 8, "timestamp": 9},
+                    {"op": "expires", "targets": 86400 * 50, "snapshot": 86400 * 51, "timestamp": 86400 * 52},
+                    {"op": "sign_write", "keys": [1, 2, 3], "publish": "all", "link": False}, {"op": "load"}]
+            it.top["top.txt"] = "top"
+            r = s.root(cs=cs0)
+            infos.append(("program", it, cs0, {"inadequate": None, "final_keys": [1, 2, 3], "reserved_role_name": nm}))
+            cases.append({"p": 10, "docs": s.docs, "root": r, "program": prog})
+            continue
         if rng.random() < 0.3:
             prog, info = cross_party(rng, i)
             r = s.root(cs=rng.random() < 0.5)
